@@ -70,17 +70,20 @@ theorem other_connections_untouched (cfg : Srv.Cfg) (impl : Srv.Impl) (conns : N
     DecRef, destroy and Conn.close, requests overlapping at will, fid numbers reused, the client
     gone or not): the table only ever holds fid objects made for that number, every reference
     count is exactly the references that are owned, the file server is never told twice that a
-    fid is destroyed, and never while it is still setting the fid up. -/
+    fid is destroyed, never while it is still setting the fid up, and never while a request
+    holds the fid. -/
 theorem any_interleaving_keeps_table_wellformed (es : List FidLife.FEv) (s : FidLife.FS)
     (h : FidLife.FS.init.run es = some s) :
     (∀ k o, s.pool k = some o → o < s.n ∧ (s.obj o).num = k) ∧
     (∀ o, o < s.n → (s.obj o).ref = ((s.obj o).holds : Int) + (if (s.obj o).tbl then 1 else 0)) ∧
     (∀ o, o < s.n → (s.obj o).nd ≤ 1) ∧
-    (∀ o, o < s.n → (s.obj o).pending = true → 1 ≤ (s.obj o).holds → (s.obj o).nd = 0 ∧ (s.obj o).calls = 0) :=
+    (∀ o, o < s.n → (s.obj o).pending = true → 1 ≤ (s.obj o).holds → (s.obj o).nd = 0 ∧ (s.obj o).calls = 0) ∧
+    (∀ o, o < s.n → 1 ≤ (s.obj o).nd → (s.obj o).holds = 0) :=
   ⟨fun k o hp => C04.table_entry_is_its_number es s h k o hp,
    fun o ho => C11.refcount_is_owners es s h o ho,
    fun o ho => C11.fid_destroyed_at_most_once es s h o ho,
    fun o ho hp hh => ⟨(C11.no_destroy_while_being_created es s h o ho hp hh).1,
-                       (C11.no_destroy_while_being_created es s h o ho hp hh).2.1⟩⟩
+                       (C11.no_destroy_while_being_created es s h o ho hp hh).2.1⟩,
+   fun o ho hn => (C11.never_destroyed_under_a_request es s h o ho (Or.inr (Or.inr hn))).1⟩
 
 end G9.C06
